@@ -4,6 +4,7 @@ Exit codes of a check: 0 = property held on everything explored (known findings 
 printed as KNOWN-FINDING lines), 1 = VIOLATION line printed, 2 = infrastructure trouble
 (build failure, TLC error, timeout, dead driver) -- never a verdict.
 """
+import atexit
 import json
 import os
 import re
@@ -18,7 +19,17 @@ REPO = os.environ.get("VERIF_REPO", "/repo")
 SPEC = os.path.join(VERIF, "spec")
 HARNESS = os.path.join(VERIF, "harness")
 BUILD = os.environ.get("VERIF_BUILD", os.path.join(VERIF, ".build"))
-BIN = os.path.join(BUILD, "t38conf")
+# one source copy and one binary per check process: checks may run side by side on one build directory
+SRC = os.path.join(BUILD, "src.%d" % os.getpid())
+BIN = os.path.join(BUILD, "t38conf.%d" % os.getpid())
+
+
+def _drop_build():
+    shutil.rmtree(SRC, ignore_errors=True)
+    try:
+        os.remove(BIN)
+    except OSError:
+        pass
 NCPU = os.cpu_count() or 4
 
 
@@ -53,7 +64,8 @@ def build_harness(log=None):
     The harness source is copied into the build directory first and go.mod / go.sum are written there, so that
     concurrent runs with different VERIF_REPO / VERIF_BUILD never share a go.mod."""
     os.makedirs(BUILD, exist_ok=True)
-    src = os.path.join(BUILD, "src")
+    src = SRC
+    atexit.register(_drop_build)
     shutil.rmtree(src, ignore_errors=True)
     shutil.copytree(HARNESS, src, ignore=shutil.ignore_patterns("go.mod", "go.sum", "zz_*"))
     txt = open(os.path.join(HARNESS, "go.mod.tmpl")).read().replace("=> /repo", "=> " + REPO)
